@@ -570,7 +570,15 @@ def rule_c08_head_boundary(ctx):
     ctx.instances[:] = [i for i in ctx.instances if not (i.rule == "R05.1" and i.key == "partial-fallback:Some" and i.status in ("violation", "known"))]
 
 
-C08_RULES = [rule_c08_readers, rule_c08_completion, rule_read_forwarding, rule_c08_head_boundary, rule_c08_close_marks_connection, _fw_C08]
+def rule_c08_framing_premise(ctx):
+    """which reader a response gets (length-delimited with which length / close-delimited) is C06's exhaustive framing
+    table: shared here, because "exactly Content-Length bytes" is only as good as the decision to count at all"""
+    from . import rules_c06
+    rules_c06.rule_tables(ctx)
+
+
+C08_RULES = [rule_c08_readers, rule_c08_completion, rule_read_forwarding, rule_c08_head_boundary, rule_c08_close_marks_connection, _fw_C08,
+             rule_c08_framing_premise]
 def rule_c04_exact_min(ctx):
     """`each body write copies min(input, output space, remaining)`: the exactness half (nothing held back) is R18.5, shared"""
     from .rules_c18 import rule_sized_exact
